@@ -10,6 +10,7 @@
    B i N                              ghost: largest number of executions of one body in this operation
    M i F.K=V;...                      ghost: values held by the model's memos
    Y i F.K,...                        spec fallback: the nodes on a cycle of the input-determined call graph
+   H 0|1                              spec kleene, once per case: the program is in the class mono_table
    S i ...                            state *)
 open Cycle_model
 
@@ -127,6 +128,9 @@ let run_case (line : string) =
           Stdlib.List.init nk (fun k -> (n_of_int fam, n_of_int k)))) in
     let s = ref (cinit_db iv idr) in
     Printf.printf "CASE %s\n" id;
+    (* spec kleene: does the program belong to the class for which C12_profile_programs_monotone
+       proves the hypotheses of the lfp theorems? *)
+    if spec = "kleene" then Printf.printf "H %d\n" (if mono_table nodes then 1 else 0);
     Stdlib.List.iteri (fun idx o ->
         let loglen = Stdlib.List.length !s.c_log in
         let runlen = Stdlib.List.length !s.c_runs in
